@@ -101,6 +101,7 @@ def gate_proxies(ctx):
         t_ = ast.parse(textwrap.dedent(inspect.getsource(fn_)))
         fd = t_.body[0]
         pname = fd.args.args[1].arg if len(fd.args.args) > 1 else None
+        iname = fd.args.args[0].arg if fd.args.args else None
         parents = {}
         for nd in ast.walk(t_):
             for ch in ast.iter_child_nodes(nd):
@@ -119,9 +120,23 @@ def gate_proxies(ctx):
                     okuse = True
                 if not okuse:
                     uses.append(f"{fn_.__name__}: {ast.unparse(par) if par is not None else pname}"[:120])
+            if isinstance(nd, ast.Name) and nd.id == iname and isinstance(nd.ctx, ast.Load):
+                # the qubit count: comparisons with integer literals (on either side, chained or not), formatting, passing on
+                par = parents.get(nd)
+                okuse = False
+                if isinstance(par, ast.Compare):
+                    terms = [par.left] + list(par.comparators)
+                    okuse = all(t is nd or (isinstance(t, ast.Constant) and isinstance(t.value, int)) or
+                                (isinstance(t, (ast.List, ast.Tuple, ast.Set)) and all(isinstance(e, ast.Constant) for e in t.elts)) for t in terms)
+                elif isinstance(par, ast.FormattedValue):
+                    okuse = True
+                elif isinstance(par, ast.Call) and nd in par.args and isinstance(par.func, ast.Name) and par.func.id in ("assert_connectivity_is_supported", "is_connectivity_supported"):
+                    okuse = True
+                if not okuse:
+                    uses.append(f"{fn_.__name__}: {ast.unparse(par) if par is not None else iname}"[:120])
     if uses:
         ctx.record(fam, UNKNOWN)
-        ctx.undecide(fam, f"the connectivity name is used beyond ==/!=/membership in a display of literals ({uses[:3]}): the 'any other string' proxy does not represent such code; "
+        ctx.undecide(fam, f"the qubit count / connectivity name is used beyond comparisons with literals / membership in a display of literals ({uses[:3]}): the region and 'any other string' proxies do not represent such code; "
                           "the all-strings argument is withdrawn, the name grid (documented names, their substrings / case / padding variants, junk) still decides natively")
         return
     regions = [RegionInt(None, ints[0] - 1)]
